@@ -96,14 +96,19 @@ Definition enc_short (m : shortmsg) : outcome bytes :=
   if 255 <? l then Err ESize else
   Ok ((if sm_dc m =? NoCoding then [] else [sm_dc m]) ++ [sm_dflt m] ++ [l] ++ u ++ sm_msg m).
 
+(* writeCString refuses a string containing NUL (after the fix: commit for D31) *)
+Definition has_nul (s : bytes) : bool := existsb (fun b => b =? 0) s.
+
 Definition enc_dests (sme : list addr) (dl : list bytes) : outcome bytes :=
   let n := N.of_nat (List.length sme + List.length dl) in
   if 255 <? n then Err ECount else
+  if existsb (fun a => has_nul (a_no a)) sme || existsb has_nul dl then Err EText else
   Ok ([n] ++ flat_map (fun a => 1 :: enc_addr a) sme ++ flat_map (fun d => 2 :: enc_cstr d) dl).
 
 Definition enc_unsucc (l : list (addr * N)) : outcome bytes :=
   let n := N.of_nat (List.length l) in
   if 255 <? n then Err ECount else
+  if existsb (fun e => has_nul (a_no (fst e))) l then Err EText else
   Ok ([n] ++ flat_map (fun e => enc_addr (fst e) ++ be32 (snd e)) l).
 
 (* Tags.WriteTo: sorted keys; empty values skipped; a value of 65535+ octets is an error *)
@@ -134,12 +139,12 @@ Definition prepare (lay : layout) (udhi : bool) (m : shortmsg) : shortmsg :=
 
 Definition enc_field (lay : layout) (udhi : bool) (k : fkind) (v : fval) : outcome bytes :=
   match k, v with
-  | FCStr, VStr s => Ok (enc_cstr s)
+  | FCStr, VStr s => if has_nul s then Err EText else Ok (enc_cstr s)
   | FU8, VU8 b => Ok [b]
   | FBool, VBool b => Ok (enc_bool b)
   | FEsm, VEsm e => Ok [esm_to_byte e]
   | FRegDel, VRegDel r => Ok [regdel_to_byte r]
-  | FAddr, VAddr a => Ok (enc_addr a)
+  | FAddr, VAddr a => if has_nul (a_no a) then Err EText else Ok (enc_addr a)
   | FDests, VDests sme dl => enc_dests sme dl
   | FUnsucc, VUnsucc l => enc_unsucc l
   | FShortMsg, VShort m => enc_short (prepare lay udhi m)
